@@ -60,7 +60,12 @@ PROPS = {
     "C06": dict(corpora=["router"], prefix="C06."),
     "C07": dict(corpora=["restbind"], prefix="C07."),
     "C08": dict(corpora=["stream_chunks"], prefix="C08.",
-                design=[("MCFraming.tla", "framing_%s_fixed.cfg" % p) for p in ("R1", "R2", "R3", "R4", "R5", "R5e")]),
+                design=[("MCFraming.tla", "framing_%s_fixed.cfg" % p) for p in ("R1", "R2", "R3", "R4", "R5", "R5e")] +
+                       [("MCFramingW.tla", "framingw_%s.cfg" % p) for p in ("W1_reframe", "W2_reframe_trailer", "W3_strip",
+                                                                           "W4_strip_trailer", "W5_synth", "W6_measure", "W7_pass")],
+                # what-if configurations that MUST fail (guards against a vacuous model): the short-read defect of the
+                # pinned tree on the request side, a right-aligned envelope prefix on the response side
+                whatif=[("MCFraming.tla", "framing_R2_asbuilt.cfg"), ("MCFramingW.tla", "framingw_W1_reframe_rightcopy.cfg")]),
     "C09": dict(corpora=["stream_faults"], prefix="C09."),
     "C10": dict(corpora=["limits"], prefix="C10."),
     "C20": dict(corpora=["schema"], corpora_thorough=["schema", "schema_errors"], prefix="C20."),
@@ -70,7 +75,8 @@ PROPS = {
     "C14": dict(corpora=["conc"], prefix="C14.", design=[("MCPool.tla", "pool_conc2.cfg")],
                 design_thorough=[("MCPool.tla", "pool_conc.cfg")]),
     "C15": dict(corpora=["history"], prefix="C15.", design=[("MCPool.tla", "pool_seq.cfg")]),
-    "C16": dict(corpora=["flow"], prefix="C16.", design=[("Flow.tla", "flow_ok.cfg")]),
+    "C16": dict(corpora=["flow"], prefix="C16.", design=[("Flow.tla", "flow_ok.cfg"), ("MCFramingW.tla", "framingw_W1_reframe.cfg"),
+                                                          ("MCFramingW.tla", "framingw_W3_strip.cfg")]),
     "C17": dict(corpora=["config"], prefix="C17."),
     "C19": dict(corpora=["stream_get", "stream_matrix"], prefix="C19."),
     "C18": dict(corpora=["stream_reject", "stream_matrix", "stream_faults"], prefix="C18."),
@@ -252,6 +258,12 @@ def check(pid, tier, seed, work, t0):
         states += g["distinct"]
         transitions += g["generated"]
         design[cfg] = dict(states=g["distinct"], transitions=g["generated"])
+    for module, cfg in prop.get("whatif", []):
+        log("[what-if] tlc %s %s (must be rejected)" % (module, cfg))
+        g = vlib.run_tlc(work, module, cfg, timeout=1800)
+        if g["ok"] or not any("is violated" in e for e in g["errors"]):
+            raise Inconclusive("what-if model %s/%s was not rejected by TLC: the design check would be vacuous" % (module, cfg))
+        design["whatif:" + cfg] = dict(rejected=True, states=g["distinct"])
     for name in (prop.get("corpora_thorough") if tier == "thorough" and prop.get("corpora_thorough") else prop["corpora"]):
         r = run_corpus(name, tier, seed, work, binary)
         scn_files[name] = r["scn_file"]
